@@ -173,7 +173,8 @@ async function execDiff (leaf, r, code, v, reenter, tier) {
     const a2 = await X.runOne(inCtx, spec)
     if (!X.sameObs(a1, a2, false).same) continue
     budget.n = 0
-    const b = await X.runOne(outCtx, spec)
+    let b = await X.runOne(outCtx, spec)
+    if (b.result.startsWith('machinery')) b = await X.runOne(outCtx, spec, null, 20000)
     // with re-entrant hooks the nested activations add events of their own: compare results only
     const cmp = reenter ? { same: a1.result === b.result, why: 'result', a: a1.result, b: b.result } : X.sameObs(a1, b, true)
     if (!cmp.same) { v(reenter ? 'exec-diff-under-reentrant-hooks' : 'exec-diff', (leaf.shape || leaf.place || leaf.op) + (leaf.name ? ':' + leaf.name : ''), `env=${JSON.stringify(spec)} ${cmp.why}\n  input : ${cmp.a}\n  output: ${cmp.b}`); return 'violation' }
